@@ -29,40 +29,52 @@ def main(tier, seed, replay=None):
         return rep.finish(min_nontrivial=0)
     witnesses.replay_for(rep, "C16")
     per = 4000 if tier == "quick" else 20000
-    res, distinct = inproc.run_shards(rep, "c16", seed, per, ["60"] + flags, R.budget(tier, 35, 360), "C16")
+    res, distinct = inproc.run_shards(rep, "c16", seed, per, ["60"] + flags, R.budget(tier, 35, 240), "C16")
     rep.sigs = set(range(distinct))
     rep.extra["trigger_flags_off"] = flags
     if tier == "thorough":
-        miri_shard(rep, "c16", seed, 120, ["12"] + flags)
+        miri_shard(rep, "c16", seed, 150, ["12"] + flags + ["tracker_long_lines"])
     return rep.finish()
 
 
-def miri_shard(rep, mode, seed, n, extra):
-    """Small shard of the same generator under Miri (arithmetic overflow / out-of-bounds / non-boundary slicing become hard failures)."""
+def miri_shard(rep, mode, seed, n, extra, procs=8):
+    """Small shards of the same generator under Miri (arithmetic overflow / out-of-bounds / non-boundary slicing become hard failures);
+    `procs` interpreter processes with different seeds run side by side (one Miri run is single-threaded)."""
     import os, subprocess, time
+    from concurrent.futures import ThreadPoolExecutor
     hdir = os.path.join(R.W.BUILD, "harness")
     env = dict(os.environ, CARGO_TARGET_DIR=os.path.join(R.W.BUILD, "miri-target"), GIT_AI_DEBUG="0",
                MIRIFLAGS="-Zmiri-disable-isolation -Zmiri-ignore-leaks")
     t = time.time()
-    try:
-        p = subprocess.run(["cargo", "+nightly", "miri", "run", "--offline", "--", mode, str(seed), str(n)] + list(extra), cwd=hdir, env=env,
-                           stdout=subprocess.PIPE, stderr=subprocess.PIPE, timeout=1500)
-    except subprocess.TimeoutExpired:
-        rep.inconclusive.append(dict(case="miri shard", why="timeout"))
-        return
-    rep.extra["miri"] = dict(cmd="cargo +nightly miri run -- %s %s %s" % (mode, seed, n), rc=p.returncode, wall_s=round(time.time() - t, 1))
-    out = p.stdout.decode("utf-8", "replace").strip().split("\n")[-1] if p.stdout else ""
-    if p.returncode != 0:
-        err = p.stderr.decode("utf-8", "replace")
-        if "Undefined Behavior" in err or "error: unsupported operation" not in err and "panicked" in err:
-            rep.direct_violation("%s/miri" % rep.prop, dict(stderr=err[-1500:]))
-        else:
-            rep.inconclusive.append(dict(case="miri shard", why=err[-400:]))
-        return
-    try:
-        j = json.loads(out)
-        rep.extra["miri"]["cases"] = j.get("cases")
-        for v in j.get("violations") or []:
-            rep.direct_violation(v.get("kind"), dict(miri=True, violation=v))
-    except ValueError:
-        rep.inconclusive.append(dict(case="miri shard", why="unparsable output"))
+    # build once (the first `miri run` compiles the crate for the interpreter), then fan out
+    def one(i):
+        try:
+            return subprocess.run(["cargo", "+nightly", "miri", "run", "--offline", "--", mode, str(seed * 100 + i), str(n if i else 2)] + list(extra), cwd=hdir, env=env,
+                                  stdout=subprocess.PIPE, stderr=subprocess.PIPE, timeout=1200)
+        except subprocess.TimeoutExpired:
+            return None
+    first = one(0)
+    with ThreadPoolExecutor(procs) as ex:
+        runs = [first] + list(ex.map(one, range(1, procs + 1)))
+    info = dict(cmd="cargo +nightly miri run -- %s <seed> %s %s" % (mode, n, " ".join(extra)), processes=len(runs), wall_s=round(time.time() - t, 1), cases=0)
+    rep.extra["miri"] = info
+    for p in runs:
+        if p is None:
+            rep.inconclusive.append(dict(case="miri shard", why="timeout"))
+            continue
+        out = p.stdout.decode("utf-8", "replace").strip().split("\n")[-1] if p.stdout else ""
+        if p.returncode != 0:
+            err = p.stderr.decode("utf-8", "replace")
+            if "Undefined Behavior" in err or ("error: unsupported operation" not in err and "panicked" in err):
+                rep.direct_violation("%s/miri" % rep.prop, dict(stderr=err[-1500:]))
+            else:
+                rep.inconclusive.append(dict(case="miri shard", why=err[-400:]))
+            continue
+        try:
+            j = json.loads(out)
+            info["cases"] += j.get("cases") or 0
+            for v in j.get("violations") or []:
+                rep.direct_violation(v.get("kind"), dict(miri=True, violation=v))
+        except ValueError:
+            rep.inconclusive.append(dict(case="miri shard", why="unparsable output"))
+    rep.counters["miri_cases"] += info["cases"]
